@@ -87,6 +87,17 @@ func genC07(g *G, n int, out io.Writer, full bool) {
 		}
 		emit("empty-list:"+k, 0, prof)
 	}
+	// list constraints with thousands of values: the translator writes the whole set, and its trace text, on single lines
+	for _, nvals := range []int{3000, 7000} {
+		for _, k := range []string{"in", "containsAll"} {
+			a := atomOfKind(k, PP("p0", false))
+			a.Vals = nil
+			for x := 0; x < nvals; x++ {
+				a.Vals = append(a.Vals, fmt.Sprintf("value%06d", x))
+			}
+			emit("long-list:"+k, nvals, ProfileSpec{Atoms: []Atom{a}, Validations: []Validation{{Name: "big", Class: NS + "T", Rule: Rule{Atom: ip(0)}}}})
+		}
+	}
 	// 1..N quantified constraints in ONE validation (each takes a fresh variable)
 	widths := []int{1, 2, 5, 10, 11, 12, 13, 24, 25, 26, 27, 30, 40}
 	if full {
